@@ -98,6 +98,23 @@ PacketOutData(f, p, act) ==
   /\ Log("PacketOutData", [f |-> f, p |-> p, act |-> act],
          [emitted |-> {<<q, f>> : q \in Emit(act, p)}])
 
+\* PACKET_OUT carrying its own data with actions [output:TABLE, set_dl_dst(Z), output:2]: the table lookup
+\* misses, so the frame goes to the controller (and is buffered) AS IT IS AT THAT POINT; the later rewrite
+\* and output act on the packet being processed, not on the stored one.
+MissViaTable(f, p) ==
+  /\ UNCHANGED missLen
+  /\ LET out2 == IF p = 2 THEN {} ELSE {<<2, "Z" \o f>>} IN
+     IF FreeSlots = {}
+     THEN /\ UNCHANGED pool
+          /\ Log("MissViaTable", [f |-> f, p |-> p],
+                 [buf |-> 0, total |-> FrameLen[f], dataLen |-> FrameLen[f], inport |-> p,
+                  reason |-> "miss", emitted |-> out2])
+     ELSE LET s == MinOf(FreeSlots) IN
+          /\ pool' = [pool EXCEPT ![s] = Slot(f, p)]
+          /\ Log("MissViaTable", [f |-> f, p |-> p],
+                 [buf |-> s, total |-> FrameLen[f], dataLen |-> Lesser(FrameLen[f], missLen), inport |-> p,
+                  reason |-> "miss", emitted |-> out2])
+
 SetConfig(ml) ==
   /\ missLen' = ml /\ UNCHANGED pool
   /\ Log("SetConfig", [missLen |-> ml], [x |-> 0])
@@ -107,6 +124,7 @@ Next == \/ \E f \in Frames, p \in Ports : Miss(f, p)
         \/ \E k \in {"PacketOut", "FlowMod"}, s \in (1..N) \cup BogusIds,
               a \in Acts : Use(k, s, a)
         \/ \E f \in Frames, p \in Ports, a \in Acts : PacketOutData(f, p, a)
+        \/ \E f \in Frames, p \in Ports : MissViaTable(f, p)
         \/ \E ml \in MissLens : SetConfig(ml)
 
 Spec == Init /\ [][Next]_vars
@@ -120,10 +138,10 @@ Bounded == Cardinality(Occupied) <= N
 \* a packet-in always carries the true total length; the whole frame when not
 \* buffered, at most maxLen bytes when buffered
 PacketInOK ==
-  last.a = "ToController" =>
+  last.a \in {"ToController", "MissViaTable"} =>
     /\ last.exp.total = FrameLen[last.args.f]
     /\ (last.exp.buf = 0 => last.exp.dataLen = last.exp.total)
-    /\ (last.exp.buf # 0 => /\ last.exp.dataLen <= last.args.maxLen
+    /\ (last.exp.buf # 0 => /\ (last.a = "ToController" => last.exp.dataLen <= last.args.maxLen)
                             /\ last.exp.dataLen <= last.exp.total
                             /\ pool[last.exp.buf] = Slot(last.args.f, last.args.p))
 
@@ -134,7 +152,7 @@ NeverOverwritten ==
 
 \* no buffer id <=> pool was full
 NoBufferIffFull ==
-  [][last'.a = "ToController" =>
+  [][last'.a \in {"ToController", "MissViaTable"} =>
        ((last'.exp.buf = 0) <=> (FreeSlots = {}))]_vars
 
 \* using an id emits iff it was outstanding, emits exactly the stored frame,
